@@ -38,7 +38,7 @@ type Node interface {
 	ReadAt(b []byte, off int64) (int, error)
 	Sync() (int, error)
 	Unmap(off, l int64) (int, error)
-	Restart()               // process restart after a clean or unclean stop: ends up closed
+	Restart() // process restart after a clean or unclean stop: ends up closed
 	View() NodeView
 	SnapshotImage(name string) (string, bool) // content of a snapshot, for point-in-time comparison
 	SyncFrom(src Node) error                  // stand-in for the rebuild file copy: snapshots of src (not the head)
@@ -64,7 +64,7 @@ type ModelNode struct {
 	dirty      bool
 	size       int64
 	clone      string
-	Actions    []string // start signals received
+	Actions    []string       // start signals received
 	headBlk    map[int64]bool // blocks present in the head file (written since the last snapshot/revert)
 }
 
